@@ -352,6 +352,32 @@ def opsCall64 (addr len target : Nat) : Res (List Op) := do
   let nsp ← Expr.mkBin .sub spE (Expr.ec 8 64)
   pure [.store nsp (Expr.ec (addr + len) 64), .assign (scalar "rsp" 64) nsp, .branch (Expr.ec target 64)]
 
+/-- `ret imm16`: pop the return address, then `rsp += imm16` with the immediate ZERO-extended to 64 bits, branch -/
+def opsRetImm64 (addr v : Nat) : Res (List Op) := do
+  let lt := ltemp addr 64
+  let nsp ← Expr.mkBin .add spE (Expr.ec 8 64)
+  let nsp2 ← Expr.mkBin .add spE (Expr.ec (v % 2 ^ 16) 64)
+  pure [.load lt spE, .assign (scalar "rsp" 64) nsp, .assign (scalar "rsp" 64) nsp2, .branch (.scalar lt)]
+
+/-- `leave`: `rsp := rbp`, then pop into `rbp` -/
+def opsLeave64 (addr : Nat) : Res (List Op) := do
+  let lt := ltemp addr 64
+  let nsp ← Expr.mkBin .add spE (Expr.ec 8 64)
+  pure [.assign (scalar "rsp" 64) (sc "rbp" 64), .load lt spE, .assign (scalar "rsp" 64) nsp,
+        .assign (scalar "rbp" 64) (.scalar lt)]
+
+/-- `push imm` with a 64-bit operand (`v`: the decoder's sign-extended immediate as a u64) -/
+def opsPushImm64 (v : Nat) : Res (List Op) := do
+  let nsp ← Expr.mkBin .sub spE (Expr.ec 8 64)
+  pure [.store nsp (Expr.ec v 64), .assign (scalar "rsp" 64) nsp]
+
+/-- `call r64`: the target is copied to a temporary BEFORE the return address is pushed (`call rsp`) -/
+def opsCallReg64 (addr len : Nat) (r : GReg) : Res (List Op) := do
+  let v ← regGet .amd64 r
+  let t := temp addr 0 64
+  let nsp ← Expr.mkBin .sub spE (Expr.ec 8 64)
+  pure [.assign t v, .store nsp (Expr.ec (addr + len) 64), .assign (scalar "rsp" 64) nsp, .branch (.scalar t)]
+
 /-! ### graphs with a conditional: cmovcc and jcc -/
 
 def blockOf (addr idx : Nat) (ops : List Op) : Block :=
@@ -427,10 +453,14 @@ def liftIns (i : Ins) : Option (Res BTR) :=
     else match splitCc i.mnem with
       | some ("cmov", c) => if d.bits = s.bits then some (liftCmov i.mode c i.addr i.len d s) else none
       | _ => none
-  | [.imm t _] =>
+  | [.imm t b] =>
     match splitCc i.mnem with
     | some ("j", c) => some (liftJcc c i.addr i.len t)
-    | _ => if i.mnem = "call" ∧ i.mode = .amd64 then some (wrap i.addr i.len (opsCall64 i.addr i.len t)) else none
+    | _ => if i.mnem = "call" ∧ i.mode = .amd64 then some (wrap i.addr i.len (opsCall64 i.addr i.len t))
+           else if i.mnem = "ret" ∧ i.mode = .amd64 then
+             some (do pure { addr := i.addr, length := i.len, instrs := [oneBlock i.addr (← opsRetImm64 i.addr t)], succs := [] })
+           else if i.mnem = "push" ∧ i.mode = .amd64 ∧ b = 8 then some (wrap i.addr i.len (opsPushImm64 t))
+           else none
   | [.reg d, .imm v bytes] =>
     if aluMnemonics.contains i.mnem ∧ 8 * bytes = d.bits then some (liftRI i.mode i.mnem i.addr i.len d v bytes)
     else if i.mnem = "test" ∧ 8 * bytes = d.bits then some (wrap i.addr i.len (opsTestRI i.mode d v bytes))
@@ -438,11 +468,13 @@ def liftIns (i : Ins) : Option (Res BTR) :=
   | [] =>
     if i.mnem = "ret" ∧ i.mode = .amd64 then
       some (do pure { addr := i.addr, length := i.len, instrs := [oneBlock i.addr (← opsRet64 i.addr)], succs := [] })
+    else if i.mnem = "leave" ∧ i.mode = .amd64 then some (wrap i.addr i.len (opsLeave64 i.addr))
     else none
   | [.reg d] =>
     if unMnemonics.contains i.mnem then some (liftUn i.mode i.mnem i.addr i.len d)
     else if i.mnem = "push" ∧ i.mode = .amd64 ∧ d.bits = 64 then some (wrap i.addr i.len (opsPush64 d))
     else if i.mnem = "pop" ∧ i.mode = .amd64 ∧ d.bits = 64 then some (wrap i.addr i.len (opsPop64 i.addr d))
+    else if i.mnem = "call" ∧ i.mode = .amd64 ∧ d.bits = 64 then some (wrap i.addr i.len (opsCallReg64 i.addr i.len d))
     else match splitCc i.mnem with
       | some ("set", c) => if d.bits = 8 then some (wrap i.addr i.len (opsSetcc i.mode c d)) else none
       | _ => none
